@@ -10,7 +10,7 @@ use crate::check::kstr;
 use crate::gen::{coord_of, key_of, Key};
 use crate::guard;
 use crate::report::{Plan, Report, Tier};
-use crate::rng::fnv;
+use crate::rng::{fnv, Rng};
 use crate::shard::{CaseCtx, MonitorDef};
 use crate::sources::{self, KINDS};
 use serde_json::json;
@@ -175,5 +175,125 @@ fn run_case(cx: &CaseCtx, rep: &mut Report) {
 	if rep.wants_sample() && returned.len() > 3 {
 		rep.sample(json!({"source": kname, "advertised": format!("{pyramid:?}"), "tiles_returned": returned.len(), "detail": b.describe}));
 	}
+	if kind < 10 {
+		drop(b.reader);
+		regenerated(cx, rep, &mut rng, kind, &dir);
+	}
 	let _ = std::fs::remove_dir_all(&dir);
+}
+
+/// A container is regenerated under the name it already has (a repeated conversion into the same target, rows
+/// moved by another SQLite client): generation g differs from g-1 by one tile per level that moved outside the
+/// old level box — same payloads, same encoder choices, so the file keeps its size. Every generation is opened
+/// by a new reader in this process; what that reader advertises has to fit the file as it is now.
+fn regenerated(cx: &CaseCtx, rep: &mut Report, rng: &mut Rng, kind: usize, dir: &std::path::Path) {
+	let target = crate::mon::c01::TARGETS[kind % 5];
+	let kname = sources::kind_name(kind);
+	let sub = dir.join("regen");
+	let mut ts = sources::gen_for(rng, target, cx.tier.pick(200, 500), false, false);
+	let enc_rng = rng.clone();
+	let mut sizes: Vec<u64> = vec![];
+	for generation in 0..3u32 {
+		if generation > 0 {
+			// one tile per level leaves the old box
+			let mut moved = 0;
+			for (z, bb) in ts.bounds() {
+				let m = ((1u64 << z) - 1) as u32;
+				let Some(k) = ts.tiles.keys().filter(|k| k.0 == z).next_back().cloned() else { continue };
+				let to = if bb.2 < m { (z, bb.2 + 1, k.2) } else if bb.0 > 0 { (z, bb.0 - 1, k.2) } else if bb.3 < m { (z, k.1, bb.3 + 1) } else { continue };
+				if let Some(v) = ts.tiles.remove(&k) {
+					ts.tiles.insert(to, v);
+					moved += 1;
+				}
+			}
+			if moved == 0 {
+				return;
+			}
+		}
+		let path = crate::mon::c01::container_path(&sub, target);
+		if target == "directory" {
+			let _ = std::fs::remove_dir_all(&path);
+		}
+		let _ = std::fs::create_dir_all(&sub);
+		let mut r = enc_rng.clone();
+		let written = guard::catch(|| if kind < 5 { sources::write_own(&ts, target, &sub) } else { sources::write_foreign(&ts, target, &sub, &mut r) });
+		let path = match written {
+			Ok(Ok(p)) => p,
+			Ok(Err(e)) => {
+				if generation == 0 {
+					rep.inconclusive(&format!("regeneration fixture could not be written: {e}"));
+				} else {
+					rep.violation(&format!("{kname}|regenerate|write-failed"), "writing a container over an older generation of itself failed", json!({"source": kname, "generation": generation, "error": e}));
+				}
+				return;
+			}
+			Err(p) => {
+				rep.violation(&p.signature(&format!("regenerate-{kname}")), "writing a container over an older generation of itself panicked", json!({"source": kname, "generation": generation, "panic": p.describe()}));
+				return;
+			}
+		};
+		sizes.push(if path.is_file() { std::fs::metadata(&path).map(|m| m.len()).unwrap_or(0) } else { 0 });
+		let reader = match guard::catch(|| sources::open(&path)) {
+			Ok(Ok(r)) => r,
+			Ok(Err(e)) => {
+				rep.violation(&format!("{kname}|regenerate|open-failed"), "a regenerated container cannot be opened", json!({"source": kname, "generation": generation, "error": e}));
+				return;
+			}
+			Err(p) => {
+				rep.violation(&p.signature(&format!("regenerate-open-{kname}")), "opening a regenerated container panicked", json!({"source": kname, "generation": generation, "panic": p.describe()}));
+				return;
+			}
+		};
+		let pyramid = reader.get_parameters().bbox_pyramid.clone();
+		let witness = |extra: serde_json::Value| json!({"source": kname, "generation": generation, "file_sizes_so_far": sizes, "tileset": ts.describe(), "advertised": format!("{pyramid:?}"), "detail": extra});
+		let keys: Vec<Key> = ts.tiles.keys().cloned().collect();
+		let rd = &reader;
+		let fut = async {
+			let mut v = vec![];
+			for k in &keys {
+				if let Ok(Some(_)) = rd.get_tile_data(&coord_of(k)).await {
+					v.push(*k);
+				}
+			}
+			v
+		};
+		match guard::catch(|| guard::block_on(fut)) {
+			Err(p) => rep.violation(&p.signature(&format!("regenerate-lookup-{kname}")), "a lookup panicked", witness(json!({"panic": p.describe()}))),
+			Ok(v) => {
+				rep.evals(keys.len() as u64);
+				rep.count("tiles_returned_and_tested", v.len() as u64);
+				if generation > 0 {
+					rep.count("regenerated_containers_checked", 1);
+				}
+				let mut n = 0;
+				for k in v {
+					if !pyramid.contains_coord(&coord_of(&k)) {
+						n += 1;
+						if n <= 2 {
+							rep.violation(&format!("{kname}|regenerated|returned-tile-outside-coverage"), "a reader opened on a regenerated container returned a tile outside the coverage it advertises", witness(json!({"tile": kstr(&k), "level_box": format!("{:?}", pyramid.get_level_bbox(k.0))})));
+						}
+					}
+				}
+			}
+		}
+		if ["mbtiles", "pmtiles", "tar", "directory"].contains(&target) {
+			let bounds = ts.bounds();
+			for z in 0..32u8 {
+				let lb = pyramid.get_level_bbox(z);
+				rep.eval();
+				let ok = match bounds.get(&z) {
+					None => lb.is_empty(),
+					Some(bb) => !lb.is_empty() && (lb.x_min, lb.y_min, lb.x_max, lb.y_max) == *bb,
+				};
+				if !ok {
+					rep.violation(&format!("{kname}|regenerated|level-box-not-exact"), "a reader opened on a regenerated container advertises a level box that is not the bounding box of the tiles now stored", witness(json!({"level": z, "advertised": format!("{lb:?}"), "stored_bounds": format!("{:?}", bounds.get(&z))})));
+					break;
+				}
+			}
+		}
+		drop(reader);
+	}
+	if sizes.len() == 3 && sizes[1] == sizes[2] && sizes[1] > 0 {
+		rep.count("regenerations_with_unchanged_file_size", 1);
+	}
 }
